@@ -25,6 +25,25 @@ add(
     "array mutation) is claimed for copy independence, as the statement says.",
 )
 
+add(
+    "C10",
+    "property-based testing (Hypothesis) against a run-segmentation reference model; scripted random stream",
+    "Generated order sequences (grid containing interface values, jumps over the region, constructive multi-excursion paths) "
+    "are weighed by wirefence_weight_and_pick / compute_weight / calc_cv_vector / high_acc_swap and compared with a reference "
+    "written from the statement; time-reversal metamorphic relation; selection law checked exactly over a grid of scripted draws. Sampled.",
+    "compute_weight doubling only claimed for end points strictly outside the outer interfaces; ties u == cum/n accept either segment.",
+)
+add(
+    "C02",
+    "exhaustive enumeration (0/1 staircases) + property-based testing against an independent exact permanent oracle",
+    "inf_retis is compared entry-wise with W_ij*perm(W^ij)/perm(W) from an independent subset-DP permanent (exact integer / rational "
+    "arithmetic up to 9x9): exhaustively for all 0/1 staircase matrices, busy subsets and row arrangements up to 4 plus-ensembles "
+    "(sampled arrangements for 5-6), and for Hypothesis-generated matrices with integer/real high-acceptance weights up to 11 "
+    "plus-ensembles; metamorphic row rescaling; direct permanent_prob / quick_prob comparisons; Monte-Carlo path (>12) only structurally.",
+    "Minus path in slot 0, ghost row/column zero and busy, symmetric busy slots (maintained by pick/add_traj; checked under C03/C05). "
+    "Tolerance 1e-9 absolute on probabilities; unreachable blocks (perm=0) are excluded and counted.",
+)
+
 NOT_YET = "check not built yet in this session (design exists in DESIGN.md §4); will be claimed once its check is registered"
 
 
